@@ -366,6 +366,16 @@ Fault gen_state_fault(Rng &r, const FontImage &fi) {
     std::vector<const PassInfo *> ok; for (auto &p : ps) if (p.st_hi > p.st_lo) ok.push_back(&p);
     if (ok.empty()) return f;
     unsigned n = 1 + r.below(3);
+    if (r.chance(1, 3)) {   // column rot: one glyph range of a pass sent to another FSM column - the last one, the one behind it, ...
+        const Bytes &t = it->second; const PassInfo &p = *ok[r.below(u32(ok.size()))];
+        unsigned numCols = be16(&t[p.head + 30]), numRange = be16(&t[p.head + 32]);
+        if (numRange && p.head + 40 + 6 * size_t(numRange) <= t.size()) {
+            size_t at = p.head + 40 + 6 * size_t(r.below(numRange)) + 4;
+            u32 c = r.below(6); unsigned col = c < 2 ? numCols : c == 2 ? numCols - 1 : c == 3 ? numCols + 1 : c == 4 ? 0xFFFF : r.below(numCols ? numCols : 1);
+            f.a = {i64(at), i64((col >> 8) & 0xFF), i64(at + 1), i64(col & 0xFF)};
+            return f;
+        }
+    }
     for (unsigned k = 0; k < n; ++k) {
         const PassInfo &p = *ok[r.below(u32(ok.size()))];
         size_t cells = (p.st_hi - p.st_lo) / 2; size_t cell = r.below(u32(cells)); unsigned row = unsigned(cell / p.ncols);
@@ -390,6 +400,18 @@ Fault gen_loop_fault(Rng &r, const FontImage &fi) {
 
 void gen_faults(Rng &r, const FontImage &fi, int source, std::vector<Fault> &out, int maxn) {
     int n = 1; while (n < maxn && r.chance(1, 3)) ++n;
+    if (r.chance(1, 20)) {
+        // two cooperating corruptions of one table: the Silf directory announces one sub-table more than there is (the extra
+        // offset is whatever bytes follow) and the table has lost its tail, so a sub-table's own offsets point behind the data
+        auto sf = fi.tables.find(mktag("Silf"));
+        if (sf != fi.tables.end() && sf->second.size() > 64) {
+            const Bytes &o = sf->second; const size_t pos = be32(&o[0]) >= 0x00030000 ? 8 : 4;
+            Fault a; a.kind = "SETBYTES"; a.tag = "Silf"; a.nth = -1; a.a = {i64(pos), 0, i64(pos + 1), i64(be16(&o[pos]) + 1 + r.below(2))};
+            Fault b; b.kind = "TRUNCATE"; b.tag = "Silf"; b.nth = -1; b.a = {i64(r.chance(2, 3) ? o.size() - 1 - r.below(96) : 40 + r.below(u32(o.size() - 40)))};
+            out.push_back(a); out.push_back(b);
+            return;
+        }
+    }
     for (int i = 0; i < n; ++i) {
         Fault f;
         if (source == 1 && r.chance(1, 3)) f = gen_file_fault(r, fi);
